@@ -62,7 +62,7 @@ add(
     "Hypothesis-generated trees (rule-straddling names x node kinds x Git layer x flags); reference covered-file model + git check-ignore as oracle; four observation channels",
     "About 2400 generated trees per quick run (names on both sides of every exclusion rule at every depth, empty files, binaries, symlinks to files / "
     "directories / nowhere / outside, LICENSES, .reuse, .hg, .sl, subprojects, half of them Git repositories with generated ignore rules, tracked and "
-    "force-added files, manual submodules, all four flag combinations) are examined by lint --json, spdx, lint-file on every path and annotate -r on a "
+    "force-added files, manual submodules, sockets (entries that are neither file, directory nor link), all four flag combinations) are examined by lint --json, spdx, lint-file on every path and annotate -r on a "
     "copy; each observed file set must equal the model's COVERED set exactly (no covered file skipped, no excluded file examined).",
     "Trusts vlib/ref/covered.py and git check-ignore; nested LICENSES/.reuse/subprojects directories and ignored submodules are UNSPECIFIED; only Git is installed (no hg/jj/pijul).",
     "DESIGN.md §4 C03",
@@ -138,7 +138,8 @@ add(
     "Every file type and every --style name in default, --multi-line and --single-line mode, plus ~8000 sampled combinations per quick run (.license "
     "options, prefixes, year options, four template kinds, bodies with code / same-style comments / shebangs / blank runs / no final newline, LF/CRLF/CR, "
     "2..4 runs) are annotated repeatedly with identical arguments; the whole tree must be byte-identical after every later run and each requested tag "
-    "line must occur exactly once.",
+    "line must occur exactly once.  A further stage repeats requests with ties (names differing in letter case only, one holder under two equally frequent "
+    "prefixes with --merge-copyrights) in fresh interpreters under other PYTHONHASHSEED values.",
     "Bodies carry no REUSE tags of their own; a later run that is refused as a usage error (and changes nothing) is not a violation.",
     "DESIGN.md §4 C10",
 )
@@ -180,7 +181,7 @@ add(
     "complete (REUSE.toml key x TOML type) table + Hypothesis-generated / corrupted TOML and dep5 documents, odd file bytes and injected read faults, each through every sub-command in-process; crash = any exception leaving main(); plus a coverage-guided stage (atheris / libFuzzer) on the TOML loader, the dep5 loader + converter and the content reader / header functions, oracle inside the target",
     "All 6 x 19 (key, value shape) documents in a root and a nested REUSE.toml, ~250 generated or corrupted TOML and dep5 documents per shard, ~170 "
     "covered files / .license siblings / LICENSES texts / templates made of arbitrary or degenerate bytes per shard, with EACCES and vanishing-file faults "
-    "injected through an open() wrapper, are each run through lint (three formats), lint-file, spdx, annotate, download and convert-dep5: no escaping "
+    "injected through an open() wrapper, are each run through lint (three formats), lint-file, spdx, annotate, download (one LicenseRef-, and --all over the identifiers the generated contents name, towards an address where nobody answers) and convert-dep5: no escaping "
     "exception, exit status in {0,1,2}, exit 2 names the file, clearly wrong types => exit 2, unreadable files are reported while the others still are. "
     "Entries are also removed right after os.walk listed them; project templates (used by annotate) and .gitmodules are made of odd bytes / token sequences; lint and spdx run "
     "once more after a successful convert-dep5. The atheris stage (16 campaigns per target, half from an empty corpus, half from a few valid inputs, with a dictionary) "
@@ -207,10 +208,10 @@ add(
     "Hypothesis over invocation sequences x per-identifier network plans served by a loopback HTTP stub; tree snapshot before/after + server log + exit status + follow-up lint",
     "About 2400 generated histories of 1..3 download invocations per quick run: explicit identifiers (valid, deprecated, 'ID+', unknown, LicenseRef- "
     "with --source file / directory / directory without the file), --all, -o; LICENSES/ absent, empty or already holding the target; from the root, a "
-    "sub-directory, inside LICENSES/ (with and without Git) or outside with --root; each identifier answered with 200, 404, 500, a connection reset or "
+    "sub-directory, inside LICENSES/ (with and without Git) or outside with --root; pre-existing targets with text or with zero bytes (also for -o); each identifier answered with 200, 404, 500, 206 + part of the text, 204, a connection reset or "
     "a truncated body.  No pre-existing byte may change, only LICENSES/<id>.txt (or -o) may appear and must hold exactly the served / copied bytes, a "
     "failed identifier leaves no file and a non-zero exit status, LicenseRef- never reaches the server, and an exit-0 --all leaves no missing licence.",
-    "The network is a loopback stub (reuse.download._SPDX_REPOSITORY_BASE_URL is redirected in-process); transport errors after the response started end the batch with a traceback and non-zero status, which the statement allows.",
+    "The network is a loopback stub (reuse.download._SPDX_REPOSITORY_BASE_URL is redirected in-process); a transport error after the response started is a failed download of that identifier (since the repair 8b5ad2b; a traceback with non-zero status would still satisfy the statement).",
     "DESIGN.md §4 C19",
 )
 
@@ -219,20 +220,21 @@ add(
     "Hypothesis rule-based state machine over command histories on generated trees with an outside sentinel; invariant: content + metadata snapshot delta within the command's documented footprint",
     "About 770 histories of up to 7 commands per quick run (lint in all formats, lint-file, spdx [-o], supported-licenses, --help, --version, annotate on "
     "files and recursively on directories with .license options, convert-dep5, download of LicenseRef- / SPDX identifiers via a loopback stub with "
-    "--source and -o) on trees with symlinks into a sentinel directory outside the project, ignored files, LICENSES/, .reuse/, read-only files: after "
+    "--source and -o; annotate -r also started in a sub-directory or elsewhere with --root) on trees with symlinks into a sentinel directory outside the project, ignored files, submodules, sockets, LICENSES/, .reuse/, read-only files: after "
     "every command the snapshot (type, size, mode, mtime_ns, sha1, link target) may differ only where the command is documented to write, never for "
     "exit-2 invocations, and never in the sentinel.",
-    "Covered files below a directory come from the C03 model + git check-ignore; annotate is never given a symlink and .license siblings are never symlinks; root ignores permission bits.",
+    "Covered files below a directory come from the C03 model + git check-ignore; annotate is never given a symlink (a FILE.license that is a symlink must not be written through); Git's own metadata (.git of the project and of submodules) is outside the snapshot; root ignores permission bits.",
     "DESIGN.md §4 C15",
 )
 
 add(
     "C14", "exploration",
-    "Hypothesis-generated trees; metamorphic oracle: identical normalised lint --json and spdx output across >= 16 run variants (pool sizes, permuted directory listings, PYTHONHASHSEED, cwd, --root spellings)",
+    "Hypothesis-generated trees; metamorphic oracle: identical normalised lint --json and spdx output across >= 17 run variants (pool sizes, permuted directory listings, PYTHONHASHSEED, cwd, --root spellings incl. one through a symbolic link) + 3 Git work-tree variants",
     "About 80 generated trees per quick run (nested REUSE.toml hierarchies with partial closest / aggregate / override tables, dep5, C01-style projects, "
     "stacked comment terminators, several expressions per file) are each linted and exported 16 ways: serially, with pools of 1/2/3/16 workers, under two "
     "permutations of every directory listing (serial and pooled), in fresh interpreters with three PYTHONHASHSEED values, from a sub-directory with "
-    "--root .., and from outside with absolute, relative and non-normalised --root; all normalised reports of one tree must be equal.",
+    "--root .., and from outside with absolute, relative, non-normalised --root and 'other/link/..' through a symbolic link into the project; all normalised reports of one tree must be equal.  "
+    "Then the tree becomes a Git work tree and is linted without --root from the root, a sub-directory and a nested directory with a LICENSES/ of its own: those three must agree.",
     "OS scheduling is not controlled (workers share no state; pool size and task order are varied instead); listing order is permuted by harness-owned wrappers of os.walk / glob.iglob.",
     "DESIGN.md §4 C14",
 )
